@@ -42,7 +42,7 @@ def local(tag: str) -> str:
 def wellformed(text: str) -> dict:
     """Namespace-aware expat parse of the bytes; returns facts, never raises."""
     facts = {"parse_ok": False, "error": None, "n_roots": 0, "unbound": [], "n_decl": text.count("<?xml")}
-    p = expat.ParserCreate(namespace_separator=" ")
+    p = expat.ParserCreate(namespace_separator="\x1f")  # a character no well-formed document can contain
     depth = [0]
     roots = [0]
 
